@@ -3822,3 +3822,75 @@ B("F37-C03-wrapped-io-error-taken-for-torn-tail", "C03", "C03:R-C03.16:journal::
                     lsm_tree::Error::Io(e) => crate::Error::Io(e),
                     e => e.into(),
                 })?;""", """                let compression = CompressionType::decode_from(reader)?;""")
+
+# ---- repairs 38-41 reverted
+B("F38-C14-write-halt-ignores-deleted-keyspace", "C14", "C14:R-C14.7:keyspace::Keyspace::check_write_halt:stall-loop-ends-when-the-keyspace-is-deleted", KS,
+  """            if self.is_deleted.load(std::sync::atomic::Ordering::Acquire) {
+                return;
+            }
+
+            // NOTE: Ask for the compaction""", """            // NOTE: Ask for the compaction""")
+B("F38-C14-sealed-wait-ignores-dead-workers", "C14", "C14:R-C14.7:keyspace::Keyspace::local_backpressure:stall-loop-ends-when-the-workers-are-gone", KS,
+  """            && !self.is_deleted.load(std::sync::atomic::Ordering::Acquire)
+            && self.worker_messager.upgrade().is_some()
+        {""", """            && !self.is_deleted.load(std::sync::atomic::Ordering::Acquire)
+        {""")
+B("F39-C17-recover-queues-before-workers-start", "C17", "C17:R-C17.10:db::Database::recover", DB,
+  """        db.worker_pool.start(
+            db.config.worker_threads,
+            &db.supervisor,
+            &db.stats,
+            &PoisonDart::new(db.is_poisoned.clone()),
+            &db.active_thread_counter,
+        )?;
+
+        for keyspace in to_flush {""", """        for keyspace in to_flush.clone() {
+            db.supervisor
+                .flush_manager
+                .enqueue(Arc::new(crate::flush::Task { keyspace }));
+        }
+
+        db.worker_pool.start(
+            db.config.worker_threads,
+            &db.supervisor,
+            &db.stats,
+            &PoisonDart::new(db.is_poisoned.clone()),
+            &db.active_thread_counter,
+        )?;
+
+        for keyspace in to_flush {""")
+B("F40-C17-database-drop-removes-temporary-folder-itself", "C17", "C17:R-C17.11:<db::DatabaseInner as std::ops::Drop>::drop", DB,
+  """            self.lock_file
+                .remove_folder_on_release(self.config.path.clone());""", """            if let Err(err) = std::fs::remove_dir_all(&self.config.path) {
+                log::warn!("Failed to clean up path: {} - {err}", self.config.path.display());
+            }""")
+B("C17-temporary-folder-removed-after-unlock", "C17", "C17:R-C17.11:<locked_file::LockedFileGuardInner as std::ops::Drop>::drop", "src/locked_file.rs",
+  """        if let Some(folder) = self.1.lock().ok().and_then(|mut x| x.take()) {
+            if let Err(e) = std::fs::remove_dir_all(&folder) {
+                log::warn!("Failed to clean up path: {} - {e}", folder.display());
+            }
+        }
+
+        log::debug!("Unlocking database lock");
+
+        self.0
+            .unlock()
+            .inspect_err(|e| {
+                log::warn!("Failed to unlock database lock: {e:?}");
+            })
+            .ok();""", """        log::debug!("Unlocking database lock");
+
+        self.0
+            .unlock()
+            .inspect_err(|e| {
+                log::warn!("Failed to unlock database lock: {e:?}");
+            })
+            .ok();
+
+        if let Some(folder) = self.1.lock().ok().and_then(|mut x| x.take()) {
+            if let Err(e) = std::fs::remove_dir_all(&folder) {
+                log::warn!("Failed to clean up path: {} - {e}", folder.display());
+            }
+        }""")
+B("F41-C17-drop-does-not-join-workers", "C17", "C17:R-C17.12:<db::DatabaseInner as std::ops::Drop>::drop", DB,
+  "        self.worker_pool.join();\n", "")
